@@ -412,7 +412,7 @@ def Machine.leavesOK (M : Machine) (o : SemOpts) : Bool :=
       (M.call o s x).paths.all fun p =>
         match p.2 with
         | .next st adv => adv == 1 && st ≥ 0
-        | .ret code _ adv => code != "OK" && code != "SPIN" && adv ≤ 1
+        | .ret code _ adv => code != "OK" && adv ≤ 1
         | .yielded _ _ adv => adv ≤ 1
 
 end Nmfu
